@@ -56,10 +56,39 @@ TECHNIQUE = "Lean 4 proof (ring identities, completing the square, loop invarian
 _S = None
 
 
+_AA = "ACDEFGHIKLMNPQRSTVWY"
+_NUC = "ACGU"
+
+
+def _install_ccd():
+    """The sandbox has no internal CCD: a minimal one (20 amino acids, 4 ribonucleotides) lives in
+    fixtures/C16/components.bcif (rebuilt deterministically if absent) and is installed through the public
+    `info.set_ccd_path()` so that `superimpose_homologs` can find backbone atoms and sequences."""
+    import numpy as np
+    import biotite.structure.info as info
+    import biotite.structure.io.pdbx as pdbx
+    from biotite.sequence import ProteinSequence
+    from common import paths
+    path = os.path.join(paths.FIXTURES, "C16", "components.bcif")
+    if not os.path.exists(path):
+        three = [ProteinSequence.convert_letter_1to3(c) for c in _AA] + list(_NUC)
+        one = list(_AA) + list(_NUC)
+        typ = ["L-PEPTIDE LINKING"] * len(_AA) + ["RNA LINKING"] * len(_NUC)
+        order = sorted(range(len(three)), key=lambda i: three[i])
+        file = pdbx.BinaryCIFFile()
+        file["components"] = pdbx.BinaryCIFBlock({"chem_comp": pdbx.BinaryCIFCategory({
+            "id": np.array([three[i] for i in order]), "type": np.array([typ[i] for i in order]),
+            "one_letter_code": np.array([one[i] for i in order]), "name": np.array([three[i] for i in order])})})
+        os.makedirs(os.path.dirname(path), exist_ok=True)
+        file.write(path)
+    info.set_ccd_path(path)
+
+
 def _mod():
     """The module object of structure/superimpose.py (the package attribute of that name is the function)."""
     global _S
     if _S is None:
+        _install_ccd()
         _S = importlib.import_module("biotite.structure.superimpose")
         if not hasattr(_S, "_get_rotation_matrices"):
             import sys
@@ -443,11 +472,32 @@ def run_impl(case):
                         quantiles=(float(Fraction(w[14])), float(Fraction(w[15]))), outlier_threshold=float(Fraction(w[16])))
                 lst = lambda a: ",".join(str(int(i)) for i in a) if len(a) else "_"   # noqa: E731
                 out.append(f"ok fi={lst(fi)} mi={lst(mi)}")
+            elif w[0] == "fma":
+                F, M = _atoms_from(case["fixed_atoms"]), _atoms_from(case["mobile_atoms"])
+                FI, MI = S._get_backbone_anchor_indices(F), S._get_backbone_anchor_indices(M)
+                A = S._find_matching_anchors(F[..., FI], M[..., MI], None, -10, False)
+                out.append("ok " + (",".join(str(int(x)) for x in np.asarray(A).ravel()) if len(A) else "_"))
             else:
                 out.append("bad-op")
         except Exception as e:  # noqa: BLE001
             out.append(_err(e))
     return out
+
+
+def _atoms_from(d):
+    """AtomArray / AtomArrayStack from the JSON description of a `homc` case."""
+    import numpy as np
+    import biotite.structure as struc
+    coord = np.array(d["coord"], dtype=np.float32)
+    n = coord.shape[-2]
+    a = struc.AtomArray(n) if coord.ndim == 2 else struc.AtomArrayStack(coord.shape[0], n)
+    a.coord = coord
+    a.atom_name = np.array(d["atom_name"])
+    a.res_name = np.array(d["res_name"])
+    a.chain_id = np.array(d["chain_id"])
+    a.res_id = np.array(d["res_id"])
+    a.element = np.array([x[0] for x in d["atom_name"]])
+    return a
 
 
 def _as_atoms(X):
@@ -529,7 +579,14 @@ def _gen_apply(rng):
     t = [[_small(rng) for _ in range(3)] for _ in range(ll)]
     X = [[[_small(rng) for _ in range(3)] for _ in range(n)] for _ in range(mx)]
     head = f"{k} {_toks(_flatten(c))} {m} {_toks(_flatten(R))} {ll} {_toks(_flatten(t))}"
-    dts = rng.choice([["float32"] * 3, ["float64"] * 3, ["float32", "float64", "float32"], ["float64", "float32", "float64"]])
+    dts = rng.choice([["float32"] * 3, ["float64"] * 3, ["float32", "float64", "float32"], ["float64", "float32", "float64"],
+                      # integer rotation arrays (axis permutations / quarter turns as in the class docstring) with
+                      # fractional float translations
+                      ["float64", "int64", "float64"], ["float32", "int64", "float64"], ["float64", "int32", "float32"]])
+    if dts[1].startswith("int"):
+        c = [[_small(rng) + Fraction(rng.choice([1, 3, 5, 7]), rng.choice([2, 4, 8])) for _ in range(3)] for _ in range(k)]
+        t = [[_small(rng) + Fraction(rng.choice([1, 3, 5, 7]), rng.choice([2, 4, 8])) for _ in range(3)] for _ in range(ll)]
+        head = f"{k} {_toks(_flatten(c))} {m} {_toks(_flatten(R))} {ll} {_toks(_flatten(t))}"
     return {"kind": "apply", "dt": dts, "atoms": rng.random() < 0.25,
             "ops": [f"apply {head} {dim} {mx} {n} {_toks(_flatten(X))}", f"matrix {head}"]}
 
@@ -662,6 +719,105 @@ def _gen_hom(rng):
                     f"{lst(FI)} {lst(MI)} {lst(list(_flatten(A)))} {minA} {maxI} {q[0]} {q[1]} {thr}"]}
 
 
+def _gen_homc(rng, force_multichain=False):
+    """Multi-chain complexes for `superimpose_homologs` / `_find_matching_anchors` on the real code (CCD installed):
+    the mobile structure is a rigid copy of the complex; in each structure some residues of some chains (also
+    non-last ones) are missing (N-/C-terminal stretches, short unambiguous internal deletions), in both directions.
+    `ops`: chain lengths + the local anchors of every chain pair (obtained from the real function on that single
+    chain pair, where no offset is involved) -> the Lean model composes them; the real multi-chain call must agree."""
+    import numpy as np
+    import biotite.structure as struc
+    from biotite.sequence import ProteinSequence
+    S = _mod()
+    n_chains = rng.choice([2, 2, 3, 4]) if (force_multichain or rng.random() < 0.85) else 1
+    nuc = rng.random() < 0.15
+    chains = []          # per chain: list of residue dicts
+    pos = np.zeros(3)
+    for ci in range(n_chains):
+        L = rng.randint(8, 30)
+        letters = [rng.choice(_NUC if nuc else _AA) for _ in range(L)]
+        for i in range(1, L):                      # no equal neighbours: gap placement is unambiguous
+            while letters[i] == letters[i - 1]:
+                letters[i] = rng.choice(_NUC if nuc else _AA)
+        res = []
+        for i, ch in enumerate(letters):
+            step = np.array([rng.gauss(0, 1) for _ in range(3)])
+            pos = pos + step * (3.8 / (np.linalg.norm(step) or 1.0))
+            res.append({"chain": chr(ord("A") + ci), "res_id": i + 1,
+                        "res_name": ch if nuc else ProteinSequence.convert_letter_1to3(ch), "ca": pos.copy()})
+        chains.append(res)
+
+    def thin(direction):
+        """residues present in one of the two structures"""
+        keep = []
+        for ci, res in enumerate(chains):
+            L = len(res)
+            present = [True] * L
+            r = rng.random()
+            if r < 0.35:
+                for i in range(rng.randint(1, 5)):             # N-terminal residues not resolved
+                    present[i] = False
+            elif r < 0.55:
+                for i in range(rng.randint(1, 5)):             # C-terminal
+                    present[L - 1 - i] = False
+            elif r < 0.65 and L >= 20:
+                i0 = rng.randint(8, L - 10)                    # one internal residue, long flanks
+                present[i0] = False
+            keep.append(present)
+        return keep
+    keepF, keepM = thin("f"), thin("m")
+    back = "P" if nuc else "CA"
+    extra = ["C4'", "N1"] if nuc else ["N", "C"]
+
+    def build(keep, with_side_atoms):
+        names, resn, chain, resid, coords = [], [], [], [], []
+        for res, present in zip(chains, keep):
+            for r, p in zip(res, present):
+                if not p:
+                    continue
+                atoms = ([extra[0]] if with_side_atoms else []) + [back] + ([extra[1]] if with_side_atoms else [])
+                for k, an in enumerate(atoms):
+                    names.append(an)
+                    resn.append(r["res_name"])
+                    chain.append(r["chain"])
+                    resid.append(r["res_id"])
+                    off = np.zeros(3) if an == back else np.array([0.7 * (k - 1), 0.9, 0.3 * (k + 1)])
+                    coords.append(r["ca"] + off)
+        return names, resn, chain, resid, np.array(coords)
+    side = rng.random() < 0.6
+    fn, frn, fch, fid, fco = build(keepF, side)
+    mn, mrn, mch, mid, mco = build(keepM, side)
+    stack_m = rng.choice([0, 0, 0, 2])
+    motions = [(_rand_rotation(rng), np.array([rng.gauss(0, 1) for _ in range(3)]) * 30) for _ in range(max(stack_m, 1))]
+    moved = [mco @ Q.T + t for Q, t in motions]
+    mob_coord = np.stack(moved) if stack_m else moved[0]
+    if n_chains >= 2 and rng.random() < 0.04:       # malformed: the mobile structure lacks the last chain
+        last = chains[-1][0]["chain"]
+        sel = [c != last for c in mch]
+        mn, mrn, mch, mid = ([x for x, k in zip(lst, sel) if k] for lst in (mn, mrn, mch, mid))
+        mob_coord = mob_coord[..., np.array(sel), :]
+    fixed = {"coord": fco.astype(np.float32).tolist(), "atom_name": fn, "res_name": frn, "chain_id": fch, "res_id": fid}
+    mobile = {"coord": mob_coord.astype(np.float32).tolist(), "atom_name": list(mn), "res_name": list(mrn),
+              "chain_id": list(mch), "res_id": list(mid)}
+    case = {"kind": "homc", "fixed_atoms": fixed, "mobile_atoms": mobile, "nuc": nuc,
+            "min_anchors": rng.choice([3, 3, 3, 1, 5]), "n_chains": n_chains}
+    # the op line: chain lengths and per-chain local anchors from the real code on single chain pairs
+    try:
+        F, M = _atoms_from(fixed), _atoms_from(mobile)
+        Fb, Mb = F[..., S._get_backbone_anchor_indices(F)], M[..., S._get_backbone_anchor_indices(M)]
+        fchains, mchains = list(struc.chain_iter(Fb)), list(struc.chain_iter(Mb))
+        lf = [c.array_length() for c in fchains]
+        lm = [c.array_length() for c in mchains]
+        loc = []
+        for fc, mc in zip(fchains, mchains):
+            A = S._find_matching_anchors(fc, mc, None, -10, False)
+            loc.append(",".join(str(int(x)) for x in np.asarray(A).ravel()) if len(A) else "_")
+        case["ops"] = [f"fma {','.join(map(str, lf)) or '_'} {','.join(map(str, lm)) or '_'} {';'.join(loc) or '_'}"]
+    except Exception:  # noqa: BLE001
+        pass        # the single-chain reference calls failed on the tree under test: oracle-only case
+    return case
+
+
 # ---------------------------------------------------------------- generator: float stream (oracle only)
 def _rand_rotation(rng):
     """Uniform random proper rotation (float64) from a unit quaternion."""
@@ -780,6 +936,8 @@ def cases(rng, tier):
         yield _gen_woo(rng)
     for _ in range(70 * k):
         yield _gen_hom(rng)
+    for _ in range(60 * k):
+        yield _gen_homc(rng)
     for _ in range(500 * k):
         yield _gen_fit(rng)
     for _ in range(120 * k):
@@ -792,6 +950,10 @@ def corpus():
         {"kind": "apply", "dt": ["float64"] * 3,
          "ops": ["apply 1 0,0,0 1 0,-1,0,1,0,0,0,0,1 1 0,0,0 2 1 5 0,1,2,3,4,5,6,7,8,9,10,11,12,13,14",
                  "matrix 1 0,0,0 1 0,-1,0,1,0,0,0,0,1 1 0,0,0"]},
+        # the docstring rotation given as an *integer* array, fractional translations: as_matrix must not truncate them
+        {"kind": "apply", "dt": ["float64", "int64", "float64"],
+         "ops": ["apply 1 1/2,-1/4,3/2 1 0,-1,0,1,0,0,0,0,1 1 5/2,1/8,-7/4 2 1 3 0,1,2,3,4,5,6,7,8",
+                 "matrix 1 1/2,-1/4,3/2 1 0,-1,0,1,0,0,0,0,1 1 5/2,1/8,-7/4"]},
         # model-count mismatch -> IndexError; centre translation of 2 models for 3 rotations -> ValueError
         {"kind": "apply", "ops": ["apply 1 0,0,0 2 1,0,0,0,1,0,0,0,1,1,0,0,0,1,0,0,0,1 1 0,0,0 2 1 1 1,2,3",
                                   "apply 2 0,0,0,1,1,1 3 1,0,0,0,1,0,0,0,1,1,0,0,0,1,0,0,0,1,1,0,0,0,1,0,0,0,1 1 0,0,0 3 3 1 1,2,3,1,2,3,1,2,3"]},
@@ -1092,6 +1254,66 @@ def _oracle_woo(case):
     return v
 
 
+def _oracle_homc(case):
+    """`superimpose_homologs` on a rigid multi-chain copy with missing residues: no IndexError, the anchors pair
+    atoms that coincide after fitting, and all truly corresponding residues (same chain, residue number, atom name)
+    coincide after fitting."""
+    import numpy as np
+    S = _mod()
+    F, M = _atoms_from(case["fixed_atoms"]), _atoms_from(case["mobile_atoms"])
+    fch, mch = sorted(set(F.chain_id.tolist())), sorted(set(M.chain_id.tolist()))
+    try:
+        fitted, T, fi, mi = S.superimpose_homologs(F, M, min_anchors=case.get("min_anchors", 3))
+    except ValueError as e:
+        if fch != mch:
+            return []                 # different number of chains: refused (zip strict)
+        # too few backbone atoms / anchors is a documented refusal
+        if "too few" in str(e) or "fallback" in str(e):
+            return []
+        return [("C16/homologs/unexpected-exception", f"ValueError: {e}")]
+    except Exception as e:  # noqa: BLE001
+        return [("C16/homologs/unexpected-exception", f"{type(e).__name__}: {e} ({case.get('n_chains')} chains)")]
+    if fch != mch:
+        return [("C16/homologs/chain-count-mismatch-accepted", f"chains {fch} vs {mch} were superimposed")]
+    v = []
+    fi, mi = [int(i) for i in fi], [int(i) for i in mi]
+    if len(fi) != len(mi):
+        v.append(("C16/homologs/anchor-lists-differ-in-length", f"{len(fi)} vs {len(mi)}"))
+        return v
+    fc = fitted.coord if fitted.coord.ndim == 3 else fitted.coord[None]
+    tol = 10 * _tol(F.coord, M.coord, fc)
+    # (1) the reported anchors coincide after fitting (the mobile structure is a rigid copy)
+    d = np.sqrt(((fc[:, mi, :].astype(np.float64) - F.coord[fi].astype(np.float64)) ** 2).sum(axis=-1))
+    if d.size and d.max() > tol:
+        ids = lambda a, i: f"{a.chain_id[i]}{a.res_id[i]}"   # noqa: E731
+        j = int(np.argmax(d.max(axis=0)))
+        v.append(("C16/homologs/anchors-do-not-coincide-after-fitting",
+                  f"anchor pair fixed {ids(F, fi[j])} / mobile {ids(M, mi[j])} is {d.max():.3f} apart after fitting "
+                  f"(rigid copy, {len(fi)} anchors, {case.get('n_chains')} chains, tol {tol:.2g})"))
+    # (2) anchors pair the same residue
+    bad = [(j, F.chain_id[a], int(F.res_id[a]), M.chain_id[b], int(M.res_id[b])) for j, (a, b) in enumerate(zip(fi, mi))
+           if (F.chain_id[a], F.res_id[a]) != (M.chain_id[b], M.res_id[b])]
+    if bad:
+        v.append(("C16/homologs/anchors-pair-different-residues",
+                  f"{len(bad)} of {len(fi)} anchor pairs, e.g. fixed {bad[0][1]}{bad[0][2]} with mobile {bad[0][3]}{bad[0][4]}"))
+    # (3) all truly corresponding atoms coincide after fitting
+    key = lambda a: {(c, int(r), n): i for i, (c, r, n) in enumerate(zip(a.chain_id, a.res_id, a.atom_name))}   # noqa: E731
+    kf, km = key(F), key(M)
+    common = sorted(set(kf) & set(km))
+    if common:
+        ia, ib = [kf[k] for k in common], [km[k] for k in common]
+        r = max(_rmsd64(F.coord[ia], fc[k][ib]) for k in range(fc.shape[0]))
+        if r > tol:
+            v.append(("C16/homologs/rigid-copy-rmsd-not-zero",
+                      f"RMSD over the {len(common)} corresponding atoms is {r:.4g} after fitting a rigid copy "
+                      f"({case.get('n_chains')} chains, {len(fi)} anchors, tol {tol:.2g})"))
+    # (4) the fitted coordinates are apply() of the returned transformation
+    again = T.apply(M)
+    if not np.array_equal(again.coord, fitted.coord):
+        v.append(("C16/homologs/apply-does-not-reproduce-fitted", f"max diff {np.abs(again.coord - fitted.coord).max():.3g}"))
+    return v
+
+
 def _oracle_exact(case):
     """Exact streams: as_matrix == apply and model-wise action on the real objects (exact inputs, tiny tolerance)."""
     v = []
@@ -1119,6 +1341,8 @@ def oracle(case):
         return _oracle_woo(case)
     if k == "apply":
         return _oracle_exact(case)
+    if k == "homc":
+        return _oracle_homc(case)
     return []
 
 
@@ -1130,6 +1354,8 @@ def nontrivial(case, impl_out):
         return np.array(case["fixed"]).shape[-2] >= 2
     if k == "woof":
         return True
+    if k == "homc":
+        return case.get("n_chains", 1) >= 2
     if impl_out and any(o.startswith("ERR") for o in impl_out):
         return True
     return bool(impl_out) and any(len(o) > 12 for o in impl_out)
@@ -1165,3 +1391,5 @@ def search(rng, problems, tier):
         yield _gen_woo_float(rng)
     for _ in range(n // 4):
         yield _gen_apply(rng)
+    for _ in range(n // 5):
+        yield _gen_homc(rng, force_multichain=True)
